@@ -433,8 +433,11 @@ def monitorOp (mu : Mon) (prev : Args) (toks : List String) (implOk : Bool) (out
           | [c, d, n, _, _, _, _] =>
             { mu with escrowed := mu.escrowed.add (c, d) (n.toNat?.getD 0), totalSent := mu.totalSent.add (c, d) (n.toNat?.getD 0) }
           | _ => mu) mu
-      else if kind == "migrate" then
-        -- `v2::update_balances` books tokens in flight under the old rules as sent
+      else if kind == "migrate" && (match mu.legacyVer with
+          | some (x, y, z) => x < 1 && (y < 13 || (y == 13 && z == 0))
+          | none => false) then
+        -- `v2::update_balances` books tokens in flight under the old rules as sent — only when the store was written by
+        -- a version ≤ 0.13.0; a migrate of a current store must not touch the books (else: C11/reported-beyond-escrow)
         pairs.foldl (fun (mu : Mon) k =>
           let o0 := obsOut prev k.1 k.2; let o1 := obsOut cur k.1 k.2
           if o1 > o0 then { mu with escrowed := mu.escrowed.add k (o1 - o0), totalSent := mu.totalSent.add k (o1 - o0) } else mu) mu
@@ -497,6 +500,8 @@ def monitorOp (mu : Mon) (prev : Args) (toks : List String) (implOk : Bool) (out
             | none => none
         else []
       | none => []
+    -- a successful migrate stores the current version: later migrates are not upgrades from a legacy layout
+    let mu := if kind == "migrate" && implOk then { mu with legacyVer := none } else mu
     let f12 := if !mu.inited then [] else fmig ++
       -- outstanding = sent − failed-or-timed-out − redeemed, total_sent = sent
       (pairs.filterMap fun k =>
